@@ -1,8 +1,8 @@
 (* "check <n> (<name> <kind 0=Seeded|1=Pure> <cmd>)*"  ->  [seed_safe P f | f in order]   (prefix encoding of cmd:
-   0 Skip | 1 x e GetRng | 2 x DrawLocal | 3 DrawNpGlobal | 4 DrawPyGlobal | 5 f e Call | 6 a b Seq | 7 a b Choice | 8 a Loop;
-   e: 0 ESeed | 1 x EVar | 2 ENone | 3 EOther) *)
+   0 Skip | 1 x e GetRng | 2 x DrawLocal | 3 DrawNpGlobal | 4 DrawPyGlobal | 5 f e Call | 6 a b Seq | 7 a b Choice | 8 a Loop | 9 NonDet;
+   e: 0 ESeed | 1 x EVar | 2 ENone | 3 EOther | 4 x EDrawn | 5 EComputed) *)
 let cl s = let rec go i acc = if i < 0 then acc else go (i - 1) (s.[i] :: acc) in go (String.length s - 1) []
-let next_e () = match next_int () with 0 -> ESeed | 1 -> EVar (cl (next ())) | 2 -> ENone | _ -> EOther
+let next_e () = match next_int () with 0 -> ESeed | 1 -> EVar (cl (next ())) | 2 -> ENone | 4 -> EDrawn (cl (next ())) | 5 -> EComputed | _ -> EOther
 let rec next_cmd () = match next_int () with
   | 0 -> Skip
   | 1 -> let x = cl (next ()) in let e = next_e () in GetRng (x, e)
@@ -13,6 +13,7 @@ let rec next_cmd () = match next_int () with
   | 6 -> let a = next_cmd () in let b = next_cmd () in Seq (a, b)
   | 7 -> let a = next_cmd () in let b = next_cmd () in Choice (a, b)
   | 8 -> Loop (next_cmd ())
+  | 9 -> NonDet
   | _ -> failwith "bad cmd tag"
 let dispatch = function
   | "check" ->
